@@ -113,7 +113,7 @@ func C10(c *Ctx) {
 	r.Explanation = "(A1) bank movements naming the stream module account and writes/deletes of the stream section are reachable only from the stream MsgServer (and genesis import for the section); " +
 		"(A3) pairing with one origin: top-up sends NewCoins(d) from the sender to the module before storing Deposit := Deposit.Add(d) on every success path; a claim pays the fee collector and the receiver the two results of the fee-split function applied to the claim total, stores Deposit := the remaining-deposit result of the claim-amount function applied to the stored deposit, the payouts being skipped only on amount == 0; cancel settles first, refunds the reloaded remaining deposit to the sender and deletes the stream on every success path; " +
 		"(affine split) both pure split functions return, on every return edge, two coins whose sum is syntactically the input (X−Y with Y, or X with a zero coin); (A5/A2) the stream account is a blocked recipient and stream creation rejects blocked receivers; genesis import returns only when balances equal Σ deposits; (A8) no bank error is dropped. Σ-over-streams and rounding are not decided."
-	r.Rules = []string{"A1.escrow-moves", "A1.stream-writers", "A3.topup-pairing", "A3.claim-pairing", "A3.cancel-pairing", "AFF.split", "A5.blocked-addresses", "A2.blocked-receiver", "A3.no-stale-writeback", "A2.genesis-balance", "A8.bank-errors", "A3.lost-update", "A3.stale-element-pointer", "A3.element-carry", "A7.fee-formula"}
+	r.Rules = []string{"A1.escrow-moves", "A1.stream-writers", "A3.topup-pairing", "A3.claim-pairing", "A3.cancel-pairing", "AFF.split", "A5.blocked-addresses", "A2.blocked-receiver", "A3.no-stale-writeback", "A2.genesis-balance", "A8.bank-errors", "A3.lost-update", "A3.stale-element-pointer", "A3.element-carry", "A7.fee-formula", "A7.export-complete"}
 	lostUpdateControl(c)
 	r.Floor("functions of stream scanned for dropped updates to record copies", lostUpdates(c, "stream"), 15)
 	r.Trusted = []string{"bank transfers move exactly the given coins or fail", "bank refuses transfers to blocked addresses", "sdk.Coin Add/Sub arithmetic"}
@@ -137,6 +137,8 @@ func C10(c *Ctx) {
 	feeFormula(c)
 	affineSplit(c, "x/stream/types.CalculateAmountToClaim", 3)
 	blockedAddresses(c, []string{"stream"})
+	// escrow equals the sum of deposits across a restart: the export lists every stream whose deposit the escrow still holds
+	exportComplete(c, "stream")
 	// create rejects blocked receivers
 	if h := handlerOf(c, "stream", "CreateStream"); h != nil {
 		for i, s := range mutatingSites(c, h, isStateMutation) {
